@@ -860,16 +860,16 @@ func (vm *VirtualMachine) callFunction(
 	baseIP := vm.ip
 	baseSP := vm.sp
 
-	// Restore the previous frame when done. When the call failed there is no
+	// Restore the previous frame when done. The result of a call that
+	// completed has been taken from the stack already. When the call failed,
+	// or a Go panic is unwinding it (resultErr is not set then), there is no
 	// frame result: whatever the abandoned frame left on the stack is dropped,
-	// so that a caller that handles the error (e.g. try) finds the stack as
-	// it was before the call.
+	// so that a caller that handles the error (e.g. try) or a host that
+	// recovers the panic (Call) finds the stack as it was before the call.
 	defer func() {
 		vm.resumeFrame(baseFP, baseIP, baseSP)
-		if resultErr != nil {
-			for vm.sp > baseSP {
-				vm.pop()
-			}
+		for vm.sp > baseSP {
+			vm.pop()
 		}
 		vm.callDepth--
 	}()
